@@ -432,6 +432,33 @@ std::vector<Instance> all_instances()
     add_for_mutex<std::shared_mutex>(out, "shared_mutex", false);
     add_for_mutex<std::shared_timed_mutex>(out, "shared_timed_mutex", false);
     {
+        // the mutex type is a template parameter of atomic_guarded too
+        using W = lg::atomic_guarded<Pair, std::timed_mutex>;
+        Instance in;
+        basic<W>(in, "atomic_guarded<Pair,timed_mutex>");
+        add_load_store_ops<W>(in);
+        add_convert_op<W>(in);
+        in.ops[EXCHANGE] = [](void* p, int k) {
+            W& w = *(W*)p;
+            int hi = h_begin(EXCHANGE);
+            Pair old = w.exchange(Pair(k));
+            MC_CHECK(old.a == old.b, "torn-read", "exchange() returned a half-written value (a=%d b=%d)", old.a, old.b);
+            h_end(hi, HK_XCHG, k, old.a);
+        };
+        in.ops[CAS] = [](void* p, int ed) {
+            W& w = *(W*)p;
+            int e = ed / 4, d = ed % 4;
+            int hi = h_begin(CAS);
+            Pair expected(e);
+            Pair desired(d);
+            bool ok = w.compare_exchange(expected, desired);
+            MC_CHECK(expected.a == expected.b, "torn-read", "compare_exchange reported a half-written value");
+            if (ok) MC_CHECK(expected.a == e, "cas-expected-changed", "successful compare_exchange modified 'expected'");
+            h_end(hi, HK_CAS, e, expected.a, ok, d);
+        };
+        out.push_back(in);
+    }
+    {
         using W = lg::atomic_guarded<Pair>;
         Instance in;
         basic<W>(in, "atomic_guarded<Pair>");
